@@ -440,6 +440,29 @@ def check_operator_converters(idx, rep):
         def __init__(self, x):
             self.x = x
 
+        def __eq__(self, o):
+            return isinstance(o, _LQ) and o.x == self.x
+
+        def __hash__(self):
+            return hash(("LineQubit", self.x))
+
+    class _PSum:
+        """stand-in for cirq.PauliSum: iterates over its Pauli strings; .qubits is the sorted tuple of the qubits some string acts on (cirq's definition)"""
+        _sa_model = True
+
+        def __init__(self, strings):
+            self._s = list(strings)
+
+        def __iter__(self):
+            return iter(self._s)
+
+        def __len__(self):
+            return len(self._s)
+
+        @property
+        def qubits(self):
+            return tuple(_LQ(q) for q in sorted({q for ps in self._s for q, _ in ps._f}))
+
     class _PStr:
         _sa_model = True
 
@@ -475,7 +498,7 @@ def check_operator_converters(idx, rep):
     fo = make_folder(idx, f"{TDIR}translate_cirq.py", ctors={"QubitOperator": lambda a, k: _QOpS(*a, **k)})
     fo.env["cirq"] = Opaque("cirq")
     try:
-        got = fo.run_function(f.node, {"qubit_operator": [_PStr(w, c) for w, c in words]})
+        got = fo.run_function(f.node, {"qubit_operator": _PSum(_PStr(w, c) for w, c in words)})
     except (Undecidable, Raised) as e:
         raise AnalysisError(f"translate_op_from_cirq not foldable: {e}")
     gt = got.terms if isinstance(got, _QOpS) else {}
